@@ -62,6 +62,18 @@ def malformed_pdus(r):
     out.append(bytes([43, 13, 1, 0]))                            # unknown MEI type
     out.append(bytes([20, 7, 6, 0, 1, 0, 2, 0]))                 # file record request cut short
     out.append(bytes([21, 200, 6, 0, 1]))
+    # file-record sub-requests with a reference type other than 6, without data, with lengths that disagree
+    out.append(bytes([21, 9, 7, 0, 1, 0, 2, 0, 1, 0xAB, 0xCD]))
+    out.append(bytes([21, 9, 0, 0, 1, 0, 2, 0, 1, 0xAB, 0xCD]))
+    out.append(bytes([21, 16, 6, 0, 1, 0, 2, 0, 1, 0xAB, 0xCD, 0xFF, 0, 1, 0, 2, 0, 0]))
+    out.append(bytes([21, 7, 6, 0, 1, 0, 2, 0, 0]))
+    out.append(bytes([21, 0]))
+    out.append(bytes([21, 3, 6, 0, 1]))
+    out.append(bytes([20, 7, 5, 0, 1, 0, 2, 0, 1]))
+    out.append(bytes([20, 14, 6, 0, 1, 0, 2, 0, 1, 0, 0, 1, 0, 2, 0, 1]))
+    out.append(bytes([20, 0]))
+    out.append(bytes([24, 0]))
+    out.append(bytes([22, 0, 1, 0xFF]))
     out.append(bytes([1]))
     out.append(bytes([3, 0]))
     out.append(bytes([5, 0, 1, 0x12]))
